@@ -200,12 +200,14 @@ RunOutcome exec_C19(const Case &c) {
     // ---- fresh-memory differential: outputs and control flow must not depend on what fresh heap blocks / the workspace contain
     if (!force_dirty) {
         for (auto &o : plan.ops) if (o.vchange == "singular") singular = true; // may also end as "out of space" without being reported
-        if (singular) out.stats["dirty_pass_skipped_singular"] += 1;
-        else {
+        // lifecycles with an exactly-zero pivot (recorded finding KF1: the factorization then indexes entries of lsub/lusup it never
+        // wrote): the blocks of the growable factor arrays and the caller workspace stay zeroed, every other fresh block is dirty
+        if (singular) out.stats["dirty_pass_factor_arrays_clean"] += 1;
+        {
             int modes[2] = {plan.garbage, c.prior_plans};
             for (int m = 0; m < 2; m++) {
                 if (modes[m] == G_ZERO) continue;
-                TaskPlan d = plan; d.garbage = modes[m]; for (auto &o : d.ops) o.wsgarbage = (o.wsgarbage + modes[m]) % G_NUM;
+                TaskPlan d = plan; d.garbage = modes[m] | (singular ? G_CLEAN_GROWTH : 0); for (auto &o : d.ops) o.wsgarbage = singular ? (int)G_ZERO : (o.wsgarbage + modes[m]) % G_NUM;
                 PlanRun pd = run_plan_single(d, c19_cfg());
                 out.stats["dirty_passes"] += 1; out.stats[std::string("garbage_") + kGarbageName[modes[m]]] += 1;
                 judge(pd, "dirty", false);
